@@ -210,4 +210,85 @@ theorem C04_kernel_args (nrho : Nat) (drho : Rat) (nr : Nat) (dr : Rat) :
   · kernel_unfold [k_tabeam_fs_args]
     kernel_close
 
+/-! ## The code itself: Finnis-Sinclair density routing in the setfl writer, regenerated from the source
+
+`Atsim.Gen.Logic.setfl_density_fs` is `_lammpsWriteEAM._writeSetFLDensityFunctionFinnisSinclair` as produced by `translator/py2lean_logic.py` on every run. -/
+
+namespace SetflFsWriter
+open Atsim.Gen.Logic Atsim.TokSem
+
+/-- the one-number line the loops emit -/
+def numTok (v : OV) : Tok := ⟨"% 20.16e\n", [v]⟩
+
+theorem intRange_zero (n : Nat) : intRange 0 (n : Int) = (List.range n).map fun (k : Nat) => (k : Int) := by
+  simp [intRange]
+
+theorem streamSem_append (I : String → Nat → Rat → Rat) (a b : List Tok) : streamSem I (a ++ b) = streamSem I a ++ streamSem I b := by
+  simp [streamSem]
+
+/-- a plain function value: the model's slot (function id 0 is the zero function) -/
+theorem tokSem_value (I : String → Nat → Rat → Rat) (hI : ZeroFn I) (f : Nat) (x : Rat) :
+    tokSem I (numTok (.fn "value" f x)) = numLine (slotVal I "value" (mkSlot f x)) := by
+  unfold mkSlot
+  split
+  · next h => subst h; simp [tokSem, numTok, numLine, slotVal, ovEval, hI "value" x]
+  · simp [tokSem, numTok, numLine, slotVal, ovEval]
+
+theorem density_function_loop_eq (dr : Rat) (f : FnRec) (nr : Int) :
+    ∀ (xs : List Int) (out : List Tok),
+      setfl_density_function_loop1 dr f nr out xs = out ++ xs.map fun (i : Int) => numTok (evalFnOV f ((i : Rat) * dr)) := by
+  intro xs
+  induction xs with
+  | nil => intro out; simp [setfl_density_function_loop1]
+  | cons i is ih =>
+    intro out
+    simp only [setfl_density_function_loop1, ih, List.map_cons, numTok]
+    simp [List.append_assoc]
+
+theorem density_function_sem (I : String → Nat → Rat → Rat) (hI : ZeroFn I) (f : Nat) (nr : Nat) (dr : Rat) (out : List Tok) :
+    streamSem I (setfl_density_function ⟨f⟩ (nr : Int) dr out) =
+      streamSem I out ++ (sampled f nr dr).map (fun s => numLine (slotVal I "value" s)) := by
+  unfold setfl_density_function
+  rw [density_function_loop_eq, streamSem_append, intRange_zero]
+  congr 1
+  simp only [streamSem, sampled, List.map_map]
+  apply List.map_congr_left
+  intro k _
+  simp only [Function.comp, evalFnOV, Int.cast_natCast]
+  exact tokSem_value I hI f _
+
+/-- `otherpot.electronDensityFunction[species]` read from the writer's record is the model's dictionary look-up (absent = zero function) -/
+theorem densOf_toEam (o : El) (sp : String) : Atsim.Gen.Logic.densOf (toEam o) sp = ⟨(dictGet o.densTo sp).getD 0⟩ := by
+  unfold Atsim.Gen.Logic.densOf dictGet toEam
+  simp only [← List.map_reverse, List.find?_map]
+  have hfun : ((fun e : String × FnRec => e.1 == sp) ∘ fun p : Sp × Fid => (p.1, (⟨p.2⟩ : FnRec))) = fun p : Sp × Fid => p.1 == sp := rfl
+  rw [hfun]
+  cases o.densTo.reverse.find? (fun p : Sp × Fid => p.1 == sp) <;> simp
+
+theorem density_fs_loop_sem (I : String → Nat → Rat → Rat) (hI : ZeroFn I) (e : El) (els : List EamRec) (nr : Nat) (dr : Rat) (out : List Tok) :
+    ∀ (xs : List El) (wk : List Tok),
+      streamSem I (setfl_density_fs_loop1 dr (toEam e) els (nr : Int) out wk (xs.map toEam)) =
+        streamSem I out ++ streamSem I wk ++
+          ((xs.map fun other => sampled ((dictGet other.densTo e.sp).getD 0) nr dr).flatten).map (fun s => numLine (slotVal I "value" s)) := by
+  intro xs
+  induction xs with
+  | nil => intro wk; simp [setfl_density_fs_loop1, streamSem]
+  | cons o os ih =>
+    intro wk
+    simp only [List.map_cons, setfl_density_fs_loop1, ih, densOf_toEam, density_function_sem I hI,
+      List.flatten_cons, List.map_append, List.append_assoc]
+    simp [toEam]
+
+end SetflFsWriter
+
+open Atsim.Gen.Logic Atsim.TokSem in
+/-- **code tie (routing)**: in the block of element `e` the writer emits, for each element `other` in header order, `nr` values of
+    `other.electronDensityFunction[e.species]` (zero when that entry is absent) at `i*dr` - exactly the model's `elBlock true`, the block `C04_setfl_slot` is about -/
+theorem C04_code_density_fs (I : String → Nat → Rat → Rat) (hI : ZeroFn I) (e : El) (els : List El) (nr : Nat) (dr : Rat) (out : List Tok) :
+    streamSem I (setfl_density_fs (toEam e) (els.map toEam) (nr : Int) dr out) =
+      streamSem I out ++ ((elBlock true els 0 0 nr dr e).dens.flatten).map (fun s => numLine (slotVal I "value" s)) := by
+  unfold setfl_density_fs
+  rw [SetflFsWriter.density_fs_loop_sem I hI]
+  simp [elBlock, streamSem]
+
 end Atsim.C04
